@@ -138,6 +138,8 @@ def get_max_angle(
     center or a lower bound of ``redshift_limit``.
     """
     min_redshift = max(config.binning.zmin, redshift_limit)
+    # angles are evaluated at the bin centers, the limit must not exceed the lowest
+    min_redshift = min(min_redshift, config.binning.binning.mids[0])
     _, ang_max = config.scales.scales.get_angle_radian(
         min_redshift, cosmology=config.cosmology
     )
